@@ -206,7 +206,7 @@ class Monitor(wiring.Component):
         super().__init__({
             "src":     Out(Source.Signature(trigger=trigger)),
             "enable":  In(event_map.size),
-            "pending": In(event_map.size),
+            "pending": Out(event_map.size),
             "clear":   In(event_map.size),
         })
         self.src.event_map = event_map
